@@ -262,6 +262,15 @@ def check_case(case):
                 raise Violation(f"{name}: verdict {g}, the guideline gives {a.pop()} (peak {ref['f0']!r} Hz, A0={ref['A0']:.6g}, window length {lw:.6g} s, "
                                 f"{nw} windows, sigma_f={fstd:.6g}, search range {rng}, table column {sorted(ref['cols'])})")
         labels.append(f"{name}={'pass' if g else 'fail'}")
+    # storage order: the same curve handed over in ascending order gives the same verdicts
+    if case.get("descending"):
+        try:
+            vr_up, _ = _call(sesame.reliability, lw, nw, f_up, mc_up, sd_up, search_range_in_hz=rng, verbose=0)
+            vc_up, _ = _call(sesame.clarity, f_up, mc_up, sd_up, fstd, search_range_in_hz=rng, verbose=0)
+        except Refusal as r:
+            raise Violation(f"the curve stored in ascending order is refused ({r.exc!r}) while the descending copy is evaluated")
+        require(np.array_equal(vr, vr_up) and np.array_equal(vc, vc_up),
+                f"verdicts depend on the storage order of the frequency vector: descending {vr.tolist()} {vc.tolist()}, ascending {vr_up.tolist()} {vc_up.tolist()} (range {rng})")
     # verdicts do not depend on the verbosity
     if case["verbose"]:
         try:
